@@ -419,6 +419,9 @@ pub fn run(report: &Report) {
     explore_ans::<U16U64>(report, &super::c08::inits_with_binary::<U16U64>(), &small_alphabet::<U16U64>(), if q { 3 } else { 4 }, "mixed-precision-14");
     explore_ans::<U32U64>(report, &super::c08::inits_with_binary::<U32U64>(), &small_alphabet::<U32U64>(), if q { 3 } else { 5 }, "mixed-precision-14");
     explore_ans::<U64U128>(report, &super::c08::inits_with_binary::<U64U128>(), &small_alphabet::<U64U128>(), if q { 3 } else { 4 }, "mixed-precision-14");
+    super::pyfront::sweep(report, "sizes", if q { 5 } else { 7 },
+        "every message up to the listed length over 3 symbols x 2 models on the Python AnsCoder and RangeEncoder: num_words / num_bits / is_empty vs get_compressed, num_valid_bits, maybe_exhausted after decoding exactly the message, clear",
+        &[], &["inspections", "second call", "get_decoder"]);
 }
 
 pub fn replay(case: &serde_json::Value) -> Result<String, String> {
